@@ -130,7 +130,8 @@ def replay_instance(ck, label, res, tier, sd, gp_every):
 
 DEVS = [("FF_Esmall", "exmax", "C14_Inv", "m10: molecule gets the maximum instead of the minimum distance"),
         ("FF_Esmall", "extaglost", "C14_Inv", "original distance tag lost on merge"),
-        ("FF_Esmall", "excutoff", "C14_Inv", "m11: neighbourhood cut-off off by one in the harmful direction")]
+        ("FF_Esmall", "excutoff", "C14_Inv", "m11: neighbourhood cut-off off by one in the harmful direction"),
+        ("FF_EL", "explicitafterexcl", "C14_Inv", "seed3-C14-2: exclusions generated before the explicit links add their bonds")]
 REACH = [("FF_Esmall", "Reach_Gen")]
 
 
@@ -149,23 +150,25 @@ def run(tier):
     E = "FF_Eq" if quick else "FF_Et"
     ck.stage("TLC: model + export + deviations (concurrently)")
     jobs = [(E, "FF_E_export.cfg", {"workers": 6 if quick else 12, "timeout": 3000}), ("FF_Esmall", "FF_E.cfg", {"workers": 2}),
-            ("FF_EX", "FF_E_export.cfg", {"workers": 2})]
+            ("FF_EX", "FF_E_export.cfg", {"workers": 2}), ("FF_EL", "FF_E_export.cfg", {"workers": 2})]
     jobs += [(m, "FF_dev_%s.cfg" % d, {"workers": 1, "check": False, "timeout": 600}) for m, d, _, _ in DEVS]
     jobs += [(m, "FF_dev_%s.cfg" % r, {"workers": 1, "check": False, "timeout": 600}) for m, r in REACH]
     res = c.tlc_many(jobs, workers_each=2)
-    ex, small, exx = res[:3]
+    ex, small, exx, exl = res[:4]
     ck.model_must_hold(ex, "C14_Inv (+ C01_Inv, Base_Inv) on instance E")
     ck.model_must_hold(small, "C14_Inv small")
     ck.model_must_hold(exx, "C14_Inv (+ C01_Inv, Base_Inv) on instance EX")
-    for (m, d, inv, what), r in zip(DEVS, res[3:3 + len(DEVS)]):
+    ck.model_must_hold(exl, "C14_Inv (+ C01_Inv, Base_Inv) on instance EL")
+    for (m, d, inv, what), r in zip(DEVS, res[4:4 + len(DEVS)]):
         ck.model_must_refute(r, inv, what)
-    for (m, rname), r in zip(REACH, res[3 + len(DEVS):]):
+    for (m, rname), r in zip(REACH, res[4 + len(DEVS):]):
         ck.model_must_refute(r, rname, "non-vacuity: " + rname)
     ck.extra["deviations_refuted"] = [d for _, d, _, _ in DEVS]
 
     ck.stage("S->I replay")
     cases, ffs = replay_instance(ck, "E", ex, tier, sd, 4)
     replay_instance(ck, "EX", exx, "thorough", sd, 3)       # small: always both syntaxes
+    replay_instance(ck, "EL", exl, "thorough", sd, 3)       # bonds made by explicit (by_atom_id) links
     mixed = [x for x in cases if not x["uniform"] and x["ngenI"] > 0]
     s = mixed[len(mixed) // 2]
     ck.sample({"S->I input": s["inp"], "block distances": {b["name"]: b["nrexcl"] for b in ffs[s["inp"]["ff"] - 1]["blocks"]},
